@@ -14,6 +14,8 @@ import time
 
 VERIF = os.path.dirname(os.path.dirname(os.path.abspath(__file__)))
 REPO = os.environ.get("VERIF_REPO", "/repo")
+# where evidence/ and replays/ are written (the seeded-change campaign redirects them so that it never touches the real evidence)
+OUT = os.environ.get("VERIF_OUT", VERIF)
 COQ = os.path.join(VERIF, "coq")
 GEN = os.path.join(COQ, "gen")
 NPROC = int(os.environ.get("VERIF_NPROC", "16"))
@@ -256,13 +258,13 @@ class Run:
 
     # -- violations / known findings
     def violation(self, kind, body, no_input=False):
-        os.makedirs(os.path.join(VERIF, "replays"), exist_ok=True)
+        os.makedirs(os.path.join(OUT, "replays"), exist_ok=True)
         n = len(self.violations)
         if n >= 5 and not no_input:
             # enough replays written for this run; further violations are only counted
             self.violations.append((None, no_input))
             return
-        path = os.path.join(VERIF, "replays", "%s-%d-%d.json" % (self.pid, self.seed, n))
+        path = os.path.join(OUT, "replays", "%s-%d-%d.json" % (self.pid, self.seed, n))
         body = dict(body)
         body.update({"property": self.pid, "kind": kind, "seed": self.seed, "tier": self.tier,
                      "replay_cmd": "./check %s --replay %s" % (self.pid, path)})
@@ -315,11 +317,11 @@ class Run:
         ev = {"property_id": self.pid, "tier": self.tier, "seed": self.seed, "level": "proof", "coverage": cov,
               "assumptions": list(assumptions), "wall_s": round(time.time() - self.t0, 2),
               "violations": len(self.violations)}
-        os.makedirs(os.path.join(VERIF, "evidence"), exist_ok=True)
-        tmp = os.path.join(VERIF, "evidence", ".%s.json.tmp" % self.pid)
+        os.makedirs(os.path.join(OUT, "evidence"), exist_ok=True)
+        tmp = os.path.join(OUT, "evidence", ".%s.json.tmp" % self.pid)
         with open(tmp, "w") as f:
             json.dump(ev, f, indent=1, default=str)
-        os.replace(tmp, os.path.join(VERIF, "evidence", "%s.json" % self.pid))
+        os.replace(tmp, os.path.join(OUT, "evidence", "%s.json" % self.pid))
         print("%s tier=%s seed=%d obligations=%d discharged=%d evaluations=%d nontrivial=%d violations=%d wall=%.1fs" %
               (self.pid, self.tier, self.seed, nob, ndis, cov["evaluations"], cov["distinct_nontrivial"],
                len(self.violations), time.time() - self.t0), flush=True)
